@@ -35,20 +35,19 @@ Proof.
 Qed.
 Print Assumptions within_finite_tolerance_is_a_number.
 
-(* 2b. vector level (float64 rows): an error within tolerance bounds the change of every component *)
-Theorem ragged_error_bounds_every_component : forall t new old,
+(* 2b. vector level, for ANY shape of the result list: an error within tolerance bounds the change of
+   every component, and a NaN change of any component makes the error NaN (so it never counts) *)
+Theorem error_bounds_every_component : forall t new old,
   length new = length old ->
-  fle (err_of false (new, old)) (Fin t) = true ->
+  fle (err_of (new, old)) (Fin t) = true ->
   Forall2 (change_within t) new old.
-Proof. exact ragged_error_bounds_every_component. Qed.
-Print Assumptions ragged_error_bounds_every_component.
+Proof. exact error_bounds_every_component_lemma. Qed.
+Print Assumptions error_bounds_every_component.
 
-(* 2c. refuted at full strength: when all vectors returned by the solve function have the same length,
-   numpy builds a 2-D object array and np.max drops a NaN component that is not the last one *)
-Theorem rect_error_drops_nan_refuted :
-  exists new old, err_of true (new, old) = Fin 0 /\ In NaN (map2 fsub new old).
-Proof. exists [NaN; Fin 1], [Fin 1; Fin 1]. split; [exact rect_error_drops_nan | left; reflexivity]. Qed.
-Print Assumptions rect_error_drops_nan_refuted.
+Theorem nan_never_counts : forall new old tol,
+  In NaN (map2 fsub new old) -> fle (err_of (new, old)) tol = false.
+Proof. intros new old tol H. rewrite (nan_change_gives_nan_error _ _ H). reflexivity. Qed.
+Print Assumptions nan_never_counts.
 
 (* 3. damping ladder *)
 Theorem alpha_ladder : forall cfg o st,
@@ -89,29 +88,49 @@ Print Assumptions rejected_vars_restored.
 
 (* 5. pipeflow: a normal return means every executed Newton loop ended converged, the net is marked
    converged and the tables were written by the final extraction; PipeflowNotConverged means the net is
-   marked not converged and every table is all-NaN - for ANY prior net state *)
+   marked not converged and every table is all-NaN; any other exception either touched nothing
+   (init_options) or left all-NaN tables, and once the set-up phase is through - in particular when it is
+   raised while the results are extracted, or escapes from a solve function - the net is marked not
+   converged as well.  For ANY prior net state. *)
 Theorem pipeflow_outcome : forall m e n,
   let '(n', o, sts) := pipeflow m e n in
   (o = Returned -> n_conv n' = true /\ n_tables n' = Written /\ sts <> [] /\
                    Forall ran sts /\ Forall (fun st => s_conv st = true) sts) /\
   (o = NotConverged -> n_conv n' = false /\ n_tables n' = AllNaN) /\
-  (n_tables n' = Written -> o = Returned \/ (o = OtherError /\ n' = n)) /\
-  (o = OtherError -> n' = n \/ n_tables n' = AllNaN \/ (n_tables n' = Partial /\ n_conv n' = true)).
+  (n_tables n' = Written -> o = Returned \/ (o = OtherException /\ n' = n)) /\
+  (o = OtherException -> n' = n \/ n_tables n' = AllNaN) /\
+  (o = OtherException -> pe_options_raise e = false -> pe_setup_raise e = false ->
+     n_conv n' = false /\ n_tables n' = AllNaN).
 Proof. exact pipeflow_outcome_lemma. Qed.
 Print Assumptions pipeflow_outcome.
 
-(* 5b. outside the property's wording, shown by the model: another exception class raised by a
-   component's extract_results after convergence leaves converged = True and partly written tables *)
-Theorem other_exception_after_convergence_leaves_results :
-  exists m e n, let '(n', o, _) := pipeflow m e n in
-    o = OtherError /\ n_conv n' = true /\ n_tables n' = Partial.
-Proof. exact other_error_can_leave_results. Qed.
-Print Assumptions other_exception_after_convergence_leaves_results.
+(* 5b. the extraction clause on its own: whatever the stages did, an exception raised by a component's
+   extract_results leaves converged = False and all-NaN tables *)
+Theorem extraction_failure_leaves_no_results : forall m e n,
+  pe_options_raise e = false -> pe_setup_raise e = false -> pe_extract_raise e = true ->
+  let '(n', o, _) := pipeflow m e n in
+  o <> Returned /\ n_conv n' = false /\ n_tables n' = AllNaN.
+Proof.
+  intros m e n EO ES EX. pose proof (pipeflow_outcome_lemma m e n) as P.
+  destruct (pipeflow m e n) as [[n' o] sts] eqn:E. unfold pipeflow_post in P.
+  destruct P as [P1 [P2 [P3 [P4 P5]]]].
+  assert (NR : o <> Returned).
+  { intros ->. unfold pipeflow in E. rewrite EO, ES in E.
+    destruct (pe_unsupplied e); [inversion E|]. destruct (pe_conn_raise e); [inversion E|].
+    destruct m; try (destruct (n_hyd_flag _)); try (inversion E; fail);
+      repeat match type of E with
+             | context [stage ?k ?a ?b ?c ?d ?x] => destruct (stage k a b c d x) as [[? o'] ?]; destruct o'
+             end; rewrite ?EX in E; inversion E. }
+  split; auto. destruct o; [congruence | apply P2; auto | apply P5; auto].
+Qed.
+Print Assumptions extraction_failure_leaves_no_results.
 
-(* 6. _internal_data does not survive a hydraulic / bidirectional stage unless reuse_internal_data *)
+(* 6. _internal_data does not survive a hydraulic / bidirectional stage that ends by itself (return or
+   PipeflowNotConverged after the loop) unless reuse_internal_data is set *)
 Theorem internal_data_dropped : forall k hu more r n, k <> KHeat ->
+  ri_escape r = NoEscape -> Forall (fun x => ri_escape x = NoEscape) more ->
   n_idata (fst (fst (stage k false hu r more n))) = false.
-Proof. intros. now apply stage_idata. Qed.
+Proof. exact stage_idata. Qed.
 Print Assumptions internal_data_dropped.
 
 (* 7. stage wiring, over the table regenerated from the source: for every stage the names, tolerances
